@@ -267,15 +267,18 @@ def body_factory(ctx):
                 ref = dict(ev)
                 ref["a"] = np.asarray(cb["mean"]) * f
                 ref["A"] = np.asarray(cb["cov"]) * f * f
-                ratio = og.posterior_ratio(ref, ct["mean"], ct["cov"])
-                if ratio > 64.0 and not f4:
+                # both sides are computed covariances: their own conditioning (the kernel's matrix can be much closer to
+                # singular than the closed form's, e.g. when it leaves the jitter out) sets the round-off scale
+                ratio = og.posterior_ratio(ref, ct["mean"], ct["cov"], cond_floor=max(og.corr_cond(cb["cov"]), og.corr_cond(ct["cov"])))
+                if ratio > 8.0 and not f4:
                     raise Violation("mean/covariance of the linear draw do not scale with the data-unit ratio",
                                     mean_base=cb["mean"], mean_twin=ct["mean"], ratio_f=f, cov_base=cb["cov"],
                                     cov_twin=ct["cov"], excess=ratio)
-                if ratio > 64.0:
+                if ratio > 8.0:
                     ctx.known("F4")
                     continue
-                ctx.stat_max("max posterior scaling error / tol", ratio)
+                if not f4:
+                    ctx.stat_max("max posterior scaling error / tol", ratio)
             for nm, un_t in zip(names, ut):
                 col = T["out"][nm]
                 if not col.unit.is_equivalent(un_t):
@@ -338,6 +341,8 @@ def extreme_cases(draw):
     base = draw(gens.problems(max_surveys=1, max_epochs=4, max_poly=2, n_rows=(6, 14), units=False, t_ref=False))
     base["time_input"] = "float"
     base["row_units"] = {"P": "d", "omega": "rad", "M0": "rad", "s": None}
+    if base["prior"]["K"]["kind"] == "fcm":
+        base["prior"]["via"] = "manual"     # the cap max_K has to be rescaled with the problem: JokerPrior.default() fixes it
     # a long time series (the ln-likelihood of n epochs scales with n): epochs, velocities and (generous) errors from a seed
     n = draw(st.integers(40, 120))
     g_ = np.random.default_rng(draw(st.integers(0, 10**6)))
@@ -410,22 +415,28 @@ def extreme_body_factory(ctx):
         g = math.exp(lg)
         A = scale_spec(base, g)
         Bsp = to_unit(A, case["unit"])
+        ib = int(np.argmax(ll0))
+        if max(og.tol_of(og.evaluate(og.Problem(base), base["rows"][ib])), og.tol_of(og.evaluate(og.Problem(A), A["rows"][ib]))) > 1e-3:
+            # cancellation in the kernel's route (visible in its float64 emulation): the values are dominated by round-off
+            ctx.classes["extreme: numerically unstable configuration (skipped)"] += 1
+            return
         with ctx.sut("sampling the problem in km/s (best ln-likelihood %.1f)" % target):
             llA, outA = sample(A, case)
         with ctx.sut("sampling the same problem in %s (best ln-likelihood %.1f)" % (case["unit"], target + shift_unit)):
             llB, outB = sample(Bsp, case)
-        if abs(float(llA.max()) - target) > 1e-6 * (abs(target) + n * abs(math.log(g)) + abs(float(ll0.max())) + 1):
+        if abs(float(llA.max()) - target) > 1e-4 * (abs(target) + n * abs(math.log(g)) + abs(float(ll0.max())) + 1):
             raise Violation("rescaling every velocity by g does not move the ln-likelihood by -n ln g", g=g, n=n,
                             before=float(ll0.max()), after=float(llA.max()), expected=target)
         dev = np.abs((llB - shift_unit) - llA)
-        if np.any(dev > 1e-6 * (1 + np.abs(llA))):
+        # (coarse: the round-off model of the likelihood is applied by the 'twins' search; here only gross failures count)
+        if np.any(dev > 1e-3 * (1 + np.abs(llA))):
             raise Violation("marginal ln-likelihood is not invariant (up to the Jacobian) under a change of units", worst=float(dev.max()))
         PA, PB = outA["P"].to_value(u.day), outB["P"].to_value(u.day)
         if not (len(PA) == len(PB) and np.allclose(PA, PB, rtol=1e-12, atol=0)):
             # knife edge: a uniform draw within round-off of an acceptance ratio
             r = np.exp(llA - llA.max())
             uu = np.random.default_rng(case["rng_seed"]).uniform(size=len(r))
-            if case["entry"] == "rejection" and np.min(np.abs(r - uu) - 1e-5 * r) <= 1e-12:
+            if case["entry"] == "rejection" and np.min(np.abs(r - uu) - (4 * float(dev.max()) + 1e-9) * r) <= 1e-12:
                 ctx.classes["extreme: knife-edge acceptance (skipped)"] += 1
             else:
                 raise Violation("different prior samples returned for the same problem in other units (equal seeds), where "
